@@ -21,7 +21,7 @@ WriteCSV) the send of the formatted chunk carrying batch.Order() on the chunk ch
 		Run: runW4,
 	})
 	register(&Rule{
-		ID: "IT-8", Props: []string{"C03", "C06", "C16"}, Min: 30,
+		ID: "IT-8", Props: []string{"C03", "C06", "C16"}, Min: 24,
 		Doc: `every obtained batch is fetched: for each iterator variable, on every path a successful Next() is followed by Get() (or PushBack()) before the next Next() on
 the same iterator and before the function returns; a Next() evaluated in a condition whose other operand can stop the loop (x.Next() && i < n) pulls a batch from the channel
 that nobody reads — it is lost without any trace. Typestate over go/cfg, edge-sensitive on the outcome of Next().`,
